@@ -128,6 +128,7 @@ PROPS = {
         modules=['Resonate.Properties.C20'],
         tie_filter=r'Insert_row|_set|Select_where|_proj|shape|wiring',
         harness=[dict(bin='codecdiff', name='codecdiff', quick=['-cases', '1500'], thorough=['-cases', '60000'], search=['-cases', '20000']),
+                 dict(bin='frontdiff', name='frontdiff', quick=['-facts', '{gen}/gofacts.json'], thorough=['-facts', '{gen}/gofacts.json'], search=['-facts', '{gen}/gofacts.json']),
                  storediff('storediff-all', None, (20, 30), (600, 40)),
                  sysdiff('sysdiff-data', ['CreatePromise', 'CompletePromise', 'ReadPromise', 'SearchPromises', 'CreateSchedule', 'ReadSchedule', 'CreateCallback', 'ClaimTask'],
                          (15, 120), (300, 150), 'C01', ['-routed', '50', '-hostile', '-known', 'F5'], (100, 150))],
@@ -151,7 +152,7 @@ PROPS = {
         tie_filter=r'^$',
         harness=[dict(bin='frontdiff', name='frontdiff', quick=['-facts', '{gen}/gofacts.json'], thorough=['-facts', '{gen}/gofacts.json'], search=['-facts', '{gen}/gofacts.json'])],
         divergence_is_violation=True,
-        rule='EXHAUSTIVE: 21 endpoints x all 30 StatusCode constants x {response, error} x {minimal, full} resource shapes x {HTTP, gRPC} against the '
+        rule='EXHAUSTIVE: 21 endpoints x all 30 StatusCode constants x {response with minimal | full resource, error with | without a wrapped cause} x {HTTP, gRPC} against the '
              'real gin engine and the real grpc server over a scripted stub kernel, each case in a child process (a handler panic is an observation); '
              'checked per case: reply received, HTTP code = status/100, JSON body / error body carrying the code, gRPC OK iff successful and a proper '
              'error code otherwise, every outcome flag = (status == the kernel\'s success status for that operation); plus per endpoint the same '
